@@ -1,33 +1,40 @@
+# rapidcheck's lazily evaluated generator trees produce an unbounded number of distinct deep allocation stacks; with the
+# driver's default malloc_context_size=12 ASan's stack depot grows by ~15 KB per case (2.7 GB after 120k cases) and the
+# per-case cost grows with it.  Allocation/free stacks are therefore capped at 5 frames and the quarantine at 64 MB for
+# these workers (the stack of the faulting access itself is always complete; a case allocates a few KB).
+_ASAN = ("detect_leaks=1:detect_stack_use_after_return=0:allocator_may_return_null=1:handle_abort=0:symbolize=1:"
+         "malloc_context_size=5:quarantine_size_mb=64")
+_ENV = {"ASAN_OPTIONS": _ASAN}
 TARGETS = {
     "c08_handles_rc":   {"src": "C08/handles.cpp", "variant": "asan", "engine": "rc",   "libs": ["util", "base"]},
     "c08_handles_fuzz": {"src": "C08/handles.cpp", "variant": "asan", "engine": "fuzz", "libs": ["util", "base"]},
 }
 PROP = {
     "subchecks": [
-        {"target": "c08_handles_rc", "sub": "cabinet",
-         "quick": {"cases": 10000, "max_size": 150, "workers": 3},
+        {"target": "c08_handles_rc", "sub": "cabinet", "env": _ENV,
+         "quick": {"cases": 25000, "max_size": 150, "workers": 3},
          "thorough": {"cases": 300000, "max_size": 300, "workers": 3}},
-        {"target": "c08_handles_rc", "sub": "pool",
-         "quick": {"cases": 10000, "max_size": 120, "workers": 3},
+        {"target": "c08_handles_rc", "sub": "pool", "env": _ENV,
+         "quick": {"cases": 25000, "max_size": 120, "workers": 3},
          "thorough": {"cases": 300000, "max_size": 250, "workers": 3}},
-        {"target": "c08_handles_rc", "sub": "fd",
-         "quick": {"cases": 10000, "max_size": 150, "workers": 3},
+        {"target": "c08_handles_rc", "sub": "fd", "env": _ENV,
+         "quick": {"cases": 32000, "max_size": 150, "workers": 3},
          "thorough": {"cases": 300000, "max_size": 300, "workers": 3}},
-        {"target": "c08_handles_rc", "sub": "lifetime_tag",
-         "quick": {"cases": 60000, "max_size": 150, "workers": 3},
-         "thorough": {"cases": 1500000, "max_size": 300, "workers": 3}},
-        {"target": "c08_handles_fuzz", "sub": "cabinet",
-         "quick": {"runs": 120000, "max_len": 600, "workers": 1, "unit_timeout": 60},
-         "thorough": {"runs": 2500000, "max_len": 1500, "workers": 1, "unit_timeout": 60}},
-        {"target": "c08_handles_fuzz", "sub": "pool",
-         "quick": {"runs": 50000, "max_len": 400, "workers": 1, "unit_timeout": 60},
-         "thorough": {"runs": 1000000, "max_len": 1000, "workers": 1, "unit_timeout": 60}},
-        {"target": "c08_handles_fuzz", "sub": "fd",
-         "quick": {"runs": 100000, "max_len": 500, "workers": 1, "unit_timeout": 60},
-         "thorough": {"runs": 2500000, "max_len": 1200, "workers": 1, "unit_timeout": 60}},
-        {"target": "c08_handles_fuzz", "sub": "lifetime_tag",
-         "quick": {"runs": 200000, "max_len": 500, "workers": 1, "unit_timeout": 60},
-         "thorough": {"runs": 5000000, "max_len": 1200, "workers": 1, "unit_timeout": 60}},
+        {"target": "c08_handles_rc", "sub": "lifetime_tag", "env": _ENV,
+         "quick": {"cases": 64000, "max_size": 150, "workers": 3},
+         "thorough": {"cases": 600000, "max_size": 300, "workers": 3}},
+        {"target": "c08_handles_fuzz", "sub": "cabinet", "env": _ENV,
+         "quick": {"runs": 200000, "max_len": 600, "workers": 1, "unit_timeout": 60},
+         "thorough": {"runs": 800000, "max_len": 1500, "workers": 1, "unit_timeout": 60}},
+        {"target": "c08_handles_fuzz", "sub": "pool", "env": _ENV,
+         "quick": {"runs": 60000, "max_len": 400, "workers": 1, "unit_timeout": 60},
+         "thorough": {"runs": 100000, "max_len": 1000, "workers": 1, "unit_timeout": 60}},
+        {"target": "c08_handles_fuzz", "sub": "fd", "env": _ENV,
+         "quick": {"runs": 160000, "max_len": 500, "workers": 1, "unit_timeout": 60},
+         "thorough": {"runs": 600000, "max_len": 1200, "workers": 1, "unit_timeout": 60}},
+        {"target": "c08_handles_fuzz", "sub": "lifetime_tag", "env": _ENV,
+         "quick": {"runs": 320000, "max_len": 500, "workers": 1, "unit_timeout": 60},
+         "thorough": {"runs": 1500000, "max_len": 1200, "workers": 1, "unit_timeout": 60}},
     ],
     "assumptions": [
         "single-threaded use (none of the four classes claims thread safety)",
